@@ -263,8 +263,13 @@ def turn_outcome_kinds(spec, rec):
 # running
 # ------------------------------------------------------------------------------------------------
 
-def run_conversations(spec, fault_at=None, tr=None, max_iterations=400000, options_fn=None):
-    """Sequentially serve spec['convs'] (each on the same world) and return (world, records)."""
+def run_conversations(spec, fault_at=None, tr=None, max_iterations=400000, options_fn=None, state_mode="json", idle_fn=None):
+    """Sequentially serve spec['convs'] (each on the same world) and return (world, records).
+
+    state_mode (Colang 2.x): "json" = the caller hands back the serialised state that generate_async returned
+    (what every real caller does); "live" = the caller hands back the live State object the runtime produced, so
+    the conversation never passes through state_to_json/json_to_state (C11's reference twin).
+    idle_fn(c, t) -> virtual seconds the conversation rests before turn t (ageing fault)."""
     holder = {}
     llm_lat, act_lat = convo.latency_fns(spec)
 
@@ -280,6 +285,17 @@ def run_conversations(spec, fault_at=None, tr=None, max_iterations=400000, optio
         if fault_at:
             world.fault_at = dict(fault_at)
         records = []
+        live = {}
+        if state_mode == "live" and spec["colang"] != "1.0":
+            rt = world.app.runtime
+            orig_pe = rt.process_events
+
+            async def capturing_process_events(*a, **kw):
+                r = await orig_pe(*a, **kw)
+                live["state"] = r[1]
+                return r
+
+            rt.process_events = capturing_process_events
 
         async def main(loop):
             holder["loop"] = loop
@@ -287,6 +303,10 @@ def run_conversations(spec, fault_at=None, tr=None, max_iterations=400000, optio
                 msgs = []
                 state = None
                 for t, turn in enumerate(conv["turns"]):
+                    if idle_fn is not None:
+                        idle = idle_fn(c, t)
+                        if idle:
+                            await asyncio.sleep(idle)
                     rec = TurnRecord(c, t, turn["tok"], turn["text"])
                     h0 = len(world.history)
                     opts = options_fn(c, t) if options_fn else None
@@ -302,6 +322,8 @@ def run_conversations(spec, fault_at=None, tr=None, max_iterations=400000, optio
                         msg = res
                         if hasattr(res, "response"):
                             state = getattr(res, "state", None) if spec["colang"] != "1.0" else None
+                            if state_mode == "live" and state is not None:
+                                state = live.get("state")
                             msg = res.response[0] if isinstance(res.response, list) else {"role": "assistant", "content": res.response}
                         rec.raw = msg
                         rec.reply_role = msg.get("role")
